@@ -341,7 +341,7 @@ func runActivity(kind string, pp *pProg, in []string, dir string, idx int) (sr *
 				if i >= len(in) {
 					break
 				}
-				v, err := circuit.IO{a}.Parse(in[i : i+1])
+				v, err := a.Parse(in[i : i+1])
 				if err != nil {
 					sr.Status = clipS("input: "+err.Error(), 200)
 					return
@@ -360,12 +360,12 @@ func runActivity(kind string, pp *pProg, in []string, dir string, idx int) (sr *
 				sr.Status = "not-two-party"
 				return
 			}
-			x, err := circuit.IO{circ.Inputs[0]}.Parse(gIn)
+			x, err := circ.Inputs[0].Parse(gIn)
 			if err != nil {
 				sr.Status = clipS("input: "+err.Error(), 200)
 				return
 			}
-			y, err := circuit.IO{circ.Inputs[1]}.Parse(eIn)
+			y, err := circ.Inputs[1].Parse(eIn)
 			if err != nil {
 				sr.Status = clipS("input: "+err.Error(), 200)
 				return
@@ -491,6 +491,12 @@ func groupActivitySpec(r *hxlib.Rng, progs []*pProg, l []int, gi int, full bool)
 		actor := pool[r.Intn(len(pool))]
 		seq.add(actor, k, genInputs(r, progs[actor]))
 		seq.add(victims[(i+1)%len(victims)], kCompile, nil)
+	}
+	// two of the activities again, with the same inputs (steps of one (program,
+	// kind, inputs) must give the same results wherever they run)
+	for _, i := range []int{1, 1 + 2*(1+r.Intn(len(kinds)-1))} {
+		seq.add(seq.progs[i], seq.kinds[i], seq.ins[i])
+		seq.add(victims[0], kCompile, nil)
 	}
 	return seq.spec(fmt.Sprintf("%s/g%d/activities", victim.Family, gi), "activities", progs)
 }
